@@ -110,10 +110,10 @@ var methodTable = map[methodKey]struct {
 }{
 	{tInt, "GT"}: {"Int_GT", tBool, true}, {tInt, "LT"}: {"Int_LT", tBool, true}, {tInt, "Mul"}: {"Int_Mul", tInt, true},
 	{tInt, "IsZero"}: {"Int_IsZero", tBool, true},
-	{tDec, "GT"}: {"Dec_GT", tBool, true}, {tDec, "QuoTruncateMut"}: {"Dec_QuoTruncate", tDec, true},
+	{tDec, "GT"}:     {"Dec_GT", tBool, true}, {tDec, "QuoTruncateMut"}: {"Dec_QuoTruncate", tDec, true},
 	{tDec, "QuoTruncate"}: {"Dec_QuoTruncate", tDec, true}, {tDec, "Mul"}: {"Dec_Mul", tDec, true},
 	{tDec, "TruncateInt"}: {"Dec_TruncateInt", tInt, true}, {tDec, "TruncateInt64"}: {"Dec_TruncateInt64", tInt64, false},
-	{tCoin, "Sub"}: {"Coin_Sub", tCoin, false},
+	{tCoin, "Sub"}:  {"Coin_Sub", tCoin, false},
 	{tTime, "Unix"}: {"Time_Unix", tInt64, true}, {tTime, "Nanosecond"}: {"Time_Nanosecond", tInt64, true},
 	{tTime, "After"}: {"Time_After", tBool, true}, {tTime, "Before"}: {"Time_Before", tBool, true}, {tTime, "Equal"}: {"Time_Equal", tBool, true},
 }
